@@ -38,4 +38,9 @@ VARIANTS = [
      'edits': [('energy.py', "from propka.calculations import squared_distance, get_smallest_distance", "from propka.calculations import squared_distance, get_smallest_distance\nfrom propka.vector_algebra import rotate_vector_around_an_axis\n\n\ndef _spin(v):\n    return rotate_vector_around_an_axis(1.0, v, v)\n")]},
     {'name': 'rename-locals-silent', 'expect': 'pass',
      'edits': [(V, "gamma", "g_angle", 0)]},
+    {'name': 'sense-taken-from-incoming-axis-for-both-alignments', 'rule': 'C20.R1',
+     'edits': [(V, "    gamma = 0.0\n    if axis.y != 0:", "    sense = 1.0 if axis.x < 0 else -1.0\n    gamma = 0.0\n    if axis.y != 0:"),
+               (V, "        beta = -axis.x/abs(axis.x)*math.acos(", "        beta = sense*math.acos(")]},
+    {'name': 'sense-taken-from-realigned-axis-silent', 'expect': 'pass',
+     'edits': [(V, "        beta = -axis.x/abs(axis.x)*math.acos(", "        sense = 1.0 if axis.x < 0 else -1.0\n        beta = sense*math.acos(")]},
 ]
